@@ -13,6 +13,12 @@ CHECKS = {
  "C03": ("reference-model monitor over generated programs: random expression DAGs of every interface operation evaluated on every type, every node compared with a tracked Taylor-algebra model within the running first-order error bound",
          "Runtime monitoring of compositions: ~7e5 (quick) / ~3e7 (thorough) program nodes over 45 types; programs up to 32 nodes and depth ~19 with sharing, 1-3 independent inputs whose higher-order and mixed parts are independent of the first-order parts, hostile operands (exact-zero real parts, exact 1, absent parts). Every operation form must have been executed (74 forms) or the run is inconclusive.",
          "first-order error analysis (second-order products of residues are included); libm trusted to ~1 ulp; K=32 with observed max ratio ~6 on the unchanged tree", "DESIGN.md 3/C03"),
+ "C04": ("differential monitor: one generated program through ~60 types x 2 random seedings; every result part is keyed by the partial derivative it represents and all values of the same derivative must agree within the routes' tracked bounds; static vs dynamic bitwise; NDERIV per type",
+         "Runtime differential monitoring: ~3e6 (quick) / ~1.6e8 (thorough) pairwise agreements between types, nestings (depth <= 3), f32/f64 and static/dynamic storage on first, second, third and mixed derivatives of random programs; no model value enters the verdict (the model only supplies the error bound).",
+         "tolerance K*(u_a e_a + u_b e_b), K=32; f32 routes use 2^-24; derivatives with relative bound > 1e-3 are skipped and counted", "DESIGN.md 3/C04"),
+ "C05": ("reference-model monitor over the 20 public driver functions with generated asymmetric functions R^n -> R^m; per-index seeded scalar model algebras supply every expected entry; try_ variants checked for error pass-through and bitwise equality",
+         "Runtime monitoring of seeding/extraction/orientation: ~8e4 (quick) / ~4e6 (thorough) driver calls over static lengths 1..6, dynamic 0..6, non-square Jacobians (static, dynamic, mixed), partial Hessians (m,n), all n^3 index triples of third_partial_derivative_vec, element types f64, f32 and Dual64, outputs that are true constants.",
+         "expected values from the tracked model (K=32); libm trusted", "DESIGN.md 3/C05"),
  "C01": ("reference-model monitor: every call of every elementary function on every type vs power-series Taylor composition, stratified random inputs",
          "Runtime monitoring: the real functions are executed on ~3e5 (quick) / ~1e7 (thorough) generated operands over 51 type instantiations and every argument region; each result part is compared with an independent truncated-Taylor-algebra model within 32*u*sum|terms|. Holds on what was observed, not a proof.",
          "trusts libm for g(x0); tolerance constant calibrated on the unchanged tree (max observed ratio < 10)", "DESIGN.md 3/C01"),
